@@ -124,13 +124,16 @@ class RoundTrip(Obligation):
             return b.metablock(meta,sigs)
         if w in ('predicate','statement'):
             def uri(s): return Agg('TypeURI',[mk_string(s) if isinstance(s,str) else s])
-            def ts(secs,off=0): return Agg('TimeStamp',[Agg('DateTimeFixed',[Int(64,True,secs),Int(32,False,0),Int(32,True,off)])])
+            def ts(secs,off=0,nanos=0): return Agg('TimeStamp',[Agg('DateTimeFixed',[Int(64,True,secs),nanos if isinstance(nanos,Int) else Int(32,False,nanos),Int(32,True,off)])])
+            def frac():
+                # a time stamp with fractional seconds (RFC 3339 allows them and the parser accepts them): free nanoseconds
+                n=z3.BitVec('ts_nanos',32); run.add(z3.ULT(n,1000000000)); return Int(32,False,n)
             def linkv02(): return b.struct('LinkV02',name=self.S(run,'pname','p'),materials=b.btreemap([(b.vpath('m'),b.target_description([z3.BitVec('pm',8)]))][:run.pick(2,'npm')]),
                                            env=[none(),some(b.btreemap([(mk_string('K'),mk_string('V'))]))][run.pick(2,'penv')],command=b.command(['c']),byproducts=b.byproducts(Int(32,True,0),'o','e'))
             def meta():
-                k=run.pick(4,'meta')
+                k=run.pick(5 if w=='predicate' else 4,'meta')      # (the fractional time stamp only for bare predicates)
                 if k==0: return none()
-                t1=[none(),some(ts(1700000000)),some(ts(1700000000,3600))][k-1]
+                t1=[none(),some(ts(1700000000)),some(ts(1700000000,3600)),some(ts(1700000000,0,frac()))][k-1]
                 return some(b.struct('ProvenanceMetadata',build_invocation_id=[none(),some(self.S(run,'inv','id'))][run.pick(2,'inv')],build_started_on=t1,build_finished_on=none(),
                                      completeness=[none(),some(b.struct('Completeness',arguments=some(Bool(z3.Bool('c_arg'))),environment=none(),materials=none()))][run.pick(2,'compl')],reproducible=none()))
             def mats(): return [none(),some(VecO([b.struct('Material',uri=some(uri('git+x')),digest=some(b.hashmap([(mk_string('sha1'),mk_string('ab'))])))])),some(VecO([])),
@@ -214,7 +217,20 @@ def json_py(v,m):
         if n.vname=='Float': return 1.5
         x=model_value(m,n.f[0].z())
         return x-(1<<64) if n.vname=='NegInt' and x>>63 else x
-    if t=='String': return bytes(model_value(m,x) for x in deref(v.f[0]).b).decode(errors='replace')
+    if t=='String':
+        so=deref(v.f[0]); g=getattr(so,'ghost',None)
+        if g and g.get('kind')=='rfc3339' and getattr(so,'taint',False):
+            # a date text carried as a ghost string: written out from the model (chrono's AutoSi: 0, 3, 6 or 9 fraction digits)
+            from mirsym.models import _fmt_rfc3339
+            mvv=lambda x: x if isinstance(x,int) else model_value(m,x)
+            sg=lambda x,w: x-(1<<w) if x>>(w-1) else x
+            loc=sg(mvv(g['local_secs']),64) if not isinstance(g['local_secs'],int) else g['local_secs']; off=mvv(g['offset']); off=sg(off,32) if off>>31 else off; n=mvv(g['nanos'])
+            txt=_fmt_rfc3339(loc-off,off,g.get('zulu',True),0)
+            if n:
+                fr='%09d'%(n%1000000000); fr=fr[:3] if fr[3:]=='000000' else (fr[:6] if fr[6:]=='000' else fr)
+                i=txt.index('T')+9; txt=txt[:i]+'.'+fr+txt[i:]
+            return txt
+        return bytes(model_value(m,x) for x in so.b).decode(errors='replace')
     if t=='Array': return [json_py(x,m) for x in deref(v.f[0]).items]
     if t=='Object': return {'__obj__':[[bytes(model_value(m,x) for x in deref(k).b).decode(errors='replace'),json_py(x,m)] for k,x in deref(v.f[0]).e]}
 
